@@ -195,25 +195,43 @@ def run_case(desc, V):
 
 
 def _run_reject(desc, V):
+    import operator as _op
     A, B = make_alg(desc['cfg1']), make_alg(desc['cfg2'])
-    x = A.multivector(keys=(1,), values=[2]) if A.d else A.multivector(keys=(0,), values=[2])
-    y = B.multivector(keys=(1,), values=[3]) if B.d else B.multivector(keys=(0,), values=[3])
     path = desc['path']
-    raised = None
-    try:
-        if path == 'binary':
-            x * y
-        elif path == 'nary':
-            # the n-ary call path of OperatorDict.__call__ (three operands)
-            A.add(x, y, x)
-        else:
-            ns = {}
-            exec('def reg_mix(u, v):\n    return u * v\n', ns)
-            A.register(ns['reg_mix'])(x, y)
-    except Exception as e:  # noqa
-        raised = type(e).__name__
-    if desc['must'] and raised is None:
-        what = 'signature-order' if 'signature' in desc['cfg1'] and 'signature' in desc['cfg2'] else 'other'
-        return [Fail(f'not-rejected:{path}', f'operands of {desc["cfg1"]} and {desc["cfg2"]} were combined without an error ({path} call path)',
-                     fkey=f'reject|not-rejected|{what}')]
-    return [Eq('reached', 1, 1)]
+
+    def pats(alg):
+        top = 2 ** alg.d - 1
+        return [(1,), (0,), (0, 1), (top,), ()] if alg.d else [(0,), ()]
+    claims = []
+    # every pairing of operand key patterns (a pure scalar, the empty multivector and the pseudoscalar included): the owner of
+    # an operand is its algebra, whatever blades it stores
+    for ka in pats(A):
+        for kb in pats(B):
+            x = A.multivector(keys=ka, values=[2 + i for i in range(len(ka))])
+            y = B.multivector(keys=kb, values=[3 + i for i in range(len(kb))])
+            calls = []
+            if path == 'binary':
+                calls = [('*', lambda: x * y), ('^', lambda: x ^ y), ('|', lambda: x | y), ('+', lambda: x + y), ('-', lambda: x - y), ('>>', lambda: x >> y), ('&', lambda: x & y)]
+                if (ka, kb) != ((1,), (1,)) and A.d:
+                    calls = calls[:4]
+            elif path == 'nary':
+                # the n-ary call path of OperatorDict.__call__ (three operands)
+                calls = [('add3', lambda: A.add(x, y, x))]
+            else:
+                ns = {}
+                exec('def reg_mix(u, v):\n    return u * v\n', ns)
+                calls = [('registered', lambda: A.register(ns['reg_mix'])(x, y))]
+            for name, call in calls:
+                raised = None
+                try:
+                    call()
+                except Exception as e:  # noqa
+                    raised = type(e).__name__
+                if desc['must'] and raised is None:
+                    what = 'signature-order' if 'signature' in desc['cfg1'] and 'signature' in desc['cfg2'] else 'other'
+                    if (ka, kb) != ((1,), (1,)) and A.d:
+                        what += '|scalar-empty-or-pseudoscalar-operand'
+                    claims.append(Fail(f'not-rejected:{path}:{name}:{ka}/{kb}', f'operands of {desc["cfg1"]} (keys {ka}) and {desc["cfg2"]} (keys {kb}) were combined by {name} without an error ({path} call path)',
+                                       fkey=f'reject|not-rejected|{what}'))
+    claims.append(Eq('reached', 1, 1))
+    return claims
